@@ -201,8 +201,59 @@ func runC07(p *an.Prog, r *an.Run, tier string) {
 			}
 			d := p.Derives(0, rel.L)
 			get = d.CallTo(func(f *types.Func) bool { return isStoreMethodNamed(f, "GetAccountBalance") })
-			if get == nil || !d.HasFieldNamed("Balance", "Credit") || !d.HasFieldNamed("Balance", "Deposit") {
+			// the compared integer may be built in steps on one destination (x := new(big.Int).Set(credit); x.Add(x,
+			// deposit)): what its destination derives from counts as well
+			dRoot := p.Derives(0, bigRoot(rel.L))
+			if get == nil {
+				get = dRoot.CallTo(func(f *types.Func) bool { return isStoreMethodNamed(f, "GetAccountBalance") })
+			}
+			hasCredit := d.HasFieldNamed("Balance", "Credit") || dRoot.HasFieldNamed("Balance", "Credit")
+			hasDeposit := d.HasFieldNamed("Balance", "Deposit") || dRoot.HasFieldNamed("Balance", "Deposit")
+			var stepAdds []*ssa.Call
+			for _, mc := range an.Calls(fn, false) {
+				mcall, isCall := mc.(*ssa.Call)
+				if !isCall || !an.IsBigIntMutator(mc) || len(mc.Common().Args) == 0 || bigRoot(mc.Common().Args[0]) != bigRoot(rel.L) {
+					continue
+				}
+				// only what is done to the destination ahead of the comparison
+				if !an.Dominates(mcall, rel.If) && an.PathAvoiding(fn, mcall, nil, func(x ssa.Instruction) bool { return x == ssa.Instruction(rel.If) }, nil) == nil {
+					continue
+				}
+				dm := p.Derives(0, mcall)
+				if get == nil {
+					get = dm.CallTo(func(f *types.Func) bool { return isStoreMethodNamed(f, "GetAccountBalance") })
+				}
+				hasCredit = hasCredit || dm.HasFieldNamed("Balance", "Credit")
+				hasDeposit = hasDeposit || dm.HasFieldNamed("Balance", "Deposit")
+				if an.IsBigIntMethod(mc, "Add") {
+					stepAdds = append(stepAdds, mcall)
+				}
+			}
+			if get == nil || !hasCredit || !hasDeposit {
 				bad = append(bad, "the compared balance is not deposit + credit of GetAccountBalance")
+			}
+			// a summand added conditionally is skipped only where it is zero (if deposit.Sign() != 0 { x.Add(x, deposit) })
+			alsoRel := map[an.Ctrl]bool{}
+			for _, ctl := range an.ControllingIfs(rel.If.Block()) {
+				alsoRel[ctl] = true
+			}
+			for _, c := range stepAdds {
+				for _, ctl := range an.ControllingIfs(c.Block()) {
+					if !alsoRel[ctl] {
+						// the Add is skipped on some path to the comparison: the test must be the summand's own sign
+						okSkip := false
+						if rr, ok := an.NormCond(ctl.If.Cond); ok {
+							for _, side := range []ssa.Value{rr.L, rr.R} {
+								if sc, ok := side.(*ssa.Call); ok && an.IsBigIntMethod(sc, "Sign") {
+									okSkip = true
+								}
+							}
+						}
+						if !okSkip {
+							bad = append(bad, "a part of the balance is added at "+p.Pos(c.Pos())+" only under a condition that is not that part being zero")
+						}
+					}
+				}
 			}
 			for _, n := range d.Nodes {
 				if c, ok := n.(*ssa.Call); ok && an.IsBigIntMethod(c) && !an.IsBigIntMethod(c, "Add", "Set") {
@@ -448,6 +499,14 @@ func runC07(p *an.Prog, r *an.Run, tier string) {
 				// the lock must belong to the service (receiver), not be a local
 				if !strings.HasPrefix(string(k), "p0.") && !strings.HasPrefix(string(k), "g:") {
 					bad = append(bad, "lock "+string(k)+" is not shared by concurrent requests")
+				}
+				// ... also when it is inherited from the endpoint that calls this function: the receiver handed over must
+				// be the endpoint's own receiver, not the address of a per-request copy of the service
+				if site != nil && strings.HasPrefix(string(k), "p0.") && len(site.Common().Args) > 0 {
+					root, _ := an.RootPath(site.Common().Args[0])
+					if al, isAlloc := root.(*ssa.Alloc); isAlloc {
+						bad = append(bad, "lock "+string(k)+" belongs to a per-request copy of the service ("+al.Name()+" in "+an.FuncName(site.Parent())+", a value receiver): concurrent requests lock different mutexes")
+					}
 				}
 			}
 			// no explicit unlock between the points: every instruction dominated by get and dominating the last point keeps the lock
